@@ -223,6 +223,14 @@ func classVector(ops []felt.Felt) []string {
 func cryptoKey(fn *cryptoFn, ops []felt.Felt) string {
 	classes := classVector(ops)
 	small := *magFelt("small", 99, 1)
+	// wrong for ordinary operands as well: not a magnitude defect
+	plain := make([]felt.Felt, len(ops))
+	for j := range plain {
+		plain[j] = small
+	}
+	if want, got := fn.ref(plain), fn.impl(plain); !want.Equal(&got) {
+		return fmt.Sprintf("crypto:%s:any-operands", fn.name)
+	}
 	var culprits []string
 	for i := range ops {
 		probe := make([]felt.Felt, len(ops))
@@ -421,7 +429,7 @@ func TestCryptoDiff(t *testing.T) {
 		out.Done(1, 1)
 		for j := range got {
 			if refcrypto.BigOf(&got[j]).Cmp(want[j]) != 0 {
-				key := "crypto:HadesPermutation:state=" + strings.Join(classVector(st[:]), ",")
+				key := "crypto:HadesPermutation"
 				if !reported["hades"] {
 					reported["hades"] = true
 					diverge(out, vh.Divergence{Key: key, What: "core/crypto HadesPermutation differs from the math/big reference", Expected: want[j].String(), Observed: got[j].String()})
